@@ -191,6 +191,15 @@ def r3(ctx):
     ctx.obligation(ok)
     if not ok:
         ctx.violation("parse_order_by/pairing", ctx.where(PARSE_ORDER_BY), "every ordering key must push exactly one direction, ascending (true) by default, on the same path")
+    if ok:
+        # every key of the list is kept: the push may depend only on which lexem was read, never on the keys read so
+        # far (a skipped key lets its `desc` reverse the key before it)
+        extra = [g for g in guards_of(hir, by[fields_p[0]][0]) if g[0] == "if" and not (g[1]["k"] == "LetE" and "Lexem::" in render_pat(g[1]["pat"]))]
+        ctx.obligation(not extra)
+        if extra:
+            ctx.violation("parse_order_by/every-key-kept", ctx.where(PARSE_ORDER_BY, by[fields_p[0]][0]),
+                          "an ordering key is recorded only when %s: a key that is dropped leaves its `desc` to the key before it "
+                          "and the remaining keys no longer line up with the query" % "; ".join(guard_text(g) for g in extra))
     # desc: last direction := false
     desc_ok = False
     for mm in find_matches(hir):
@@ -263,6 +272,8 @@ RULES = [
     ("C05-R3", "parse_order_by: positional keys, default direction, desc", r3),
     ("C05-R4", "ordered rows are buffered under their criteria and drained in key order", r4),
     ("C06-R1", "the ordered buffer loses no row unless a limit is exceeded [shared with C06]", lambda ctx: __import__("c06").r1(ctx)),
+    ("X-PHASES", "clause order and phase flags of Parser::parse; WHERE shorthand window [shared]", lambda ctx: __import__("extra").parser_phases(ctx)),
+    ("X-BUFFER", "buffering predicates (ordered or aggregate) and recursive expression predicates [shared]", lambda ctx: __import__("extra").buffering_predicates(ctx)),
 ]
 
 EXPLANATION = (
@@ -274,7 +285,8 @@ EXPLANATION = (
     "maps position n to select column n-1, pushes one ascending direction per key and `desc` flips the last one; "
     "check_file computes one criteria value per key, inserts ordered rows into the TopN buffer and never writes "
     "them directly; the buffer is drained in ascending key order. That the printed sequence is a sorted permutation "
-    "on a real tree is not decided.")
+    "on a real tree is not decided."
+    ' Every ORDER BY key read is recorded (no key-dependent guard on the pushes); the buffering predicate is ordered-or-aggregate.')
 ASSUMPTIONS = ["rustc's HIR/MIR faithfully represent the source; exporter and rule scripts are correct",
                "BTreeMap iterates in key order; Ord::cmp / Ordering::reverse as documented"]
 NOT_DECIDED = ["that the output is a permutation and sorted on a real tree", "numeric comparison of negative or fractional keys (parse_filesize returns u64)"]
